@@ -99,7 +99,8 @@ def signature(case, violation):
     sig = {'clause': violation.get('clause'), 'config_class': cfg_class(cfg), 'w': w}
     try:
         probe_case = dict(case, probe_words=[], fault=case.get('fault'))
-        obs, m = C.run_model(probe_case, probe_mode='off', trace_limit=MODEL_CAP)
+        cap = case.get('model_cap', MODEL_CAP)
+        obs, m = C.run_model(probe_case, probe_mode='off', trace_limit=cap, max_ops=cap)
         top = 1 << w
         sig['op_reaches_top_of_address_space'] = any(ip + 2 * w >= top for ip in m.ip_trace) or \
             (m.ip + 2 * w >= top)
